@@ -19,7 +19,7 @@ ASSUMPTIONS = [
     'three-valued: the conventional leading newline of a multi-line value is ignored',
 ]
 BOUNDS = {'quick': {'getinfo': '1 key len<=3, 2 keys len<=2', 'multiline': '<=2 lines of len<=3', 'getconf': '<=2 values len<=2'},
-          'thorough': {'getinfo': '1 key len<=4, 2 keys len<=3', 'multiline': '<=3 lines len<=3', 'getconf': '<=3 values len<=3'}}
+          'thorough': {'getinfo': '1 key len<=4, 2 keys len<=3', 'multiline': '<=2 lines len<=3, 3 lines len<=2', 'getconf': '<=3 values len<=3'}}
 OUTSIDE = ['values longer than 4 characters', 'non-ASCII', 'more than 2 keys / 3 values', 'data lines that begin with the requested key followed by = (needs a line longer than the bound)', 'regions of the listed known findings (re-checked by their witnesses)']
 
 K1 = 'net/listeners/socks'
@@ -113,12 +113,12 @@ def _lines_of(value):
 
 _ML_Q = [{'nl': 1, 'a': a, 'b': 0, 'c': 0} for a in range(4)] + [{'nl': 2, 'a': a, 'b': b, 'c': 0} for a in range(3) for b in range(3)]
 _ML_Q2 = [{'nl': 2, 'a': a, 'b': b, 'c': 0} for a in range(4) for b in range(4) if a == 3 or b == 3]
-_ML_T = _ML_Q + _ML_Q2 + [{'nl': 3, 'a': a, 'b': b, 'c': c} for a in range(4) for b in range(4) for c in range(3)]
+_ML_T = _ML_Q + _ML_Q2 + [{'nl': 3, 'a': a, 'b': b, 'c': c} for a in range(3) for b in range(3) for c in range(3)]
 
 
-@cond(quick=dict(parts=_ML_Q, budget=100), thorough=dict(parts=_ML_T, budget=600))
-def c13_multiline(l1: str, l2: str, l3: str, nl: int, a: int, b: int, c: int) -> str:
-    """one requested key whose value is a data block of nl lines"""
+@cond(quick=dict(parts=_ML_Q, budget=100), thorough=dict(parts=_ML_T, budget=1500))
+def c13_multiline(l1: str, l2: str, l3: str, nl: int, a: int, b: int, c: int, single: bool) -> str:
+    """one requested key whose value is a data block of nl lines (through get_info and get_info_single)"""
     assume(len(l1) == a and len(l2) == b and len(l3) == c)
     _printable(l1)
     _printable(l2)
@@ -129,13 +129,16 @@ def c13_multiline(l1: str, l2: str, l3: str, nl: int, a: int, b: int, c: int) ->
             assume(x.strip() != 'OK')
     p, t = fakes.new_protocol()
     try:
-        o = fakes.Outcome(p.get_info(K1))
+        o = fakes.Outcome(p.get_info_single(K1) if single else p.get_info(K1))
         _feed(p, ['250+' + K1 + '='] + [_stuff(x) for x in lines] + ['.', '250 OK'])
     except Exception as e:
         return R('exception', '%s: %s', type(e).__name__, e)
     if o.fired != 1 or o.ok != 1:
         return R('getinfo-did-not-succeed-once', '%r fired=%d', o.exc(), o.fired)
-    val = o.value.get(K1) if isinstance(o.value, dict) and len(o.value) == 1 else None
+    if single:
+        val = o.value
+    else:
+        val = o.value.get(K1) if isinstance(o.value, dict) and len(o.value) == 1 else None
     if not isinstance(val, str) or _lines_of(val) != lines:
         return R('multiline-value-differs', 'tor sent %r, result %r', lines, o.value)
     reached()
